@@ -10,6 +10,7 @@ import (
 	"strings"
 	"sync/atomic"
 	"testing"
+	"time"
 
 	"pgregory.net/rapid"
 )
@@ -42,7 +43,17 @@ func diskRoot() string {
 // = the reference state of exactly that height. Returns the height found.
 func checkStore(dbPath string, sc *Scenario, ref *RefRun) (uint32, string) {
 	n, err := OpenNode(dbPath, sc.Era, sc.Chain, NodeOpts{})
+	for i := 0; err != nil && strings.Contains(err.Error(), "database is locked") && i < 50; i++ {
+		// the in-process interruption modes leave the old daemon's connections to this process: a
+		// cancelled context is rolled back by database/sql on a goroutine of its own, which may still be
+		// at it. A lock held by our own process is not the daemon's doing (a killed process holds none).
+		time.Sleep(100 * time.Millisecond)
+		n, err = OpenNode(dbPath, sc.Era, sc.Chain, NodeOpts{})
+	}
 	if err != nil {
+		if strings.Contains(err.Error(), "database is locked") {
+			return 0, "harness: the database stayed locked by this process after the interruption: " + err.Error()
+		}
 		return 0, "the database cannot be opened after the interruption: " + err.Error()
 	}
 	defer n.Close()
